@@ -20,6 +20,8 @@ type c14Scenario struct {
 	Cfg        biCfg    `json:"cfg"`
 	MaxCrashes int      `json:"max_crashes"`
 	Idle       int      `json:"idle_restarts"` // restarts with no traffic after the stream completed
+	Preempt    bool     `json:"preempt,omitempty"`
+	Plan       []string `json:"plan,omitempty"` // preemption plan over the wake-up statements of syncer/bisync.go
 }
 
 type c14Run struct {
@@ -42,12 +44,31 @@ type c14Rec struct {
 	Events int
 	Marks  []string
 	Early  *mc.Result
+	Seen   []string // preemption points reached
+	Hit    []string // planned preemption points reached
 }
 
 const c14Target = "bitarget:6379"
 
 func c14Exec(t *testing.T, scn c14Scenario, ch *mc.Chooser) (rec c14Rec, machinery string) {
 	msg := bubble(t, func() {
+		var pre *preemptCtl
+		if scn.Preempt {
+			pre = installPreempt(scn.Plan)
+			curPre = pre
+			defer func() {
+				rec.Seen, rec.Hit = pre.seen, pre.hit
+				curPre = nil
+				pre.remove()
+			}()
+		}
+		arm := func(on bool) {
+			if pre != nil {
+				pre.mu.Lock()
+				pre.armed = on
+				pre.mu.Unlock()
+			}
+		}
 		biEnvReset()
 		srv := redisd.New(c14Target)
 		env := &aofEnv{t: t, srv: srv}
@@ -91,6 +112,7 @@ func c14Exec(t *testing.T, scn c14Scenario, ch *mc.Chooser) (rec c14Rec, machine
 				break
 			}
 			run := biStart(boot.ro, aofRunID, boot.offset)
+			arm(true)
 			pos := startIdx
 			step := 0
 			doEvent := func(f func()) bool {
@@ -134,6 +156,7 @@ func c14Exec(t *testing.T, scn c14Scenario, ch *mc.Chooser) (rec c14Rec, machine
 			}
 			// stop: context cancelled, source closed (deterministic; an orderly EOF races
 			// between the parser closing its channel and the sender noticing the shutdown)
+			arm(false)
 			run.kill()
 			rr.Crashed = crashed
 			if run.err != nil {
@@ -492,11 +515,17 @@ func runC14(t *testing.T, rep *mc.Reporter) {
 	if tier == "thorough" {
 		cplans = append(cplans, cplan{lanes: []int{1, 0, 1}, soft: true, bound: 2, mode: "parallel"}, cplan{lanes: []int{0, 1, 0}, soft: true, bound: 2, mode: "parallel"})
 	}
+	// thorough tier: the cluster scenarios get at most 40% of the time budget; what they do not finish is reported as capped
+	cbudget := &mc.Budget{Deadline: budget.Deadline}
+	if !budget.Deadline.IsZero() && tier == "thorough" {
+		cbudget.Deadline = time.Now().Add(time.Until(budget.Deadline) * 2 / 5)
+	}
 	for _, cp := range cplans {
 		// one execution costs about half a second (every start scans the 16384 slots): all shards
 		// share each of these scenarios, divided at the root of its execution tree
-		if budget.Expired() {
-			continue
+		if cbudget.Expired() {
+			rep.Capped("cluster scenarios: their share of the deadline is used up")
+			break
 		}
 		cscn := c14cScenario{Lanes: cp.lanes, Cfg: biCfg{cp.mode, 2}, MaxCrashes: ccrashes, Idle: 1, Cluster: true, Soft: cp.soft, Pre: cp.pre}
 		if cp.soft {
@@ -506,13 +535,45 @@ func runC14(t *testing.T, rep *mc.Reporter) {
 		for _, l := range cp.lanes {
 			view.Syms = append(view.Syms, fmt.Sprintf("lane%d", l))
 		}
-		mc.RunScenarioSplit(rep, cscn, cp.bound, budget, shard, nshards, func(ch *mc.Chooser) mc.Result {
+		mc.RunScenarioSplit(rep, cscn, cp.bound, cbudget, shard, nshards, func(ch *mc.Chooser) mc.Result {
 			rec, mach := c14cExec(t, cscn, ch)
 			if mach != "" {
 				return mc.Result{Verdict: "machinery", Clause: mach}
 			}
 			return oracleC14(view, &rec)
 		})
+	}
+	// ---- preemption family (standalone target, no crash, one idle restart): every wake-up
+	// statement of syncer/bisync.go reached while the stream is replayed is a point at which the
+	// running goroutine may be held back until all others block
+	pbound := 1
+	pseqs := [][]string{{"w1", "t2"}, {"t2", "w1", "w1"}}
+	if tier == "thorough" {
+		pbound = 2
+		pseqs = append(pseqs, []string{"w1", "w2", "t2"}, []string{"w1", "p", "t2", "w1"})
+	}
+	for _, ps := range pseqs {
+		for _, cfg := range allCfg {
+			idx++
+			if idx%nshards != shard || budget.Expired() {
+				continue
+			}
+			scn := c14Scenario{Syms: append([]string{"s0"}, ps...), Cfg: cfg, MaxCrashes: 0, Idle: 1, Preempt: true}
+			rep.Scenario()
+			explorePreempt(rep, budget, pbound, func(plan []string, res mc.Result) {
+				s := scn
+				s.Plan = plan
+				rep.Exec(s, nil, res)
+			}, func(plan []string) (mc.Result, []string, []string) {
+				s := scn
+				s.Plan = plan
+				rec, mach := c14Exec(t, s, mc.NewChooser(nil))
+				if mach != "" {
+					return mc.Result{Verdict: "machinery", Clause: mach}, rec.Seen, rec.Hit
+				}
+				return oracleC14(s, &rec), rec.Seen, rec.Hit
+			})
+		}
 	}
 	for _, pl := range plans {
 		pl := pl
